@@ -214,12 +214,29 @@ def r08d(ctx):
         l, op, r = t.left, t.ops[0], t.comparators[0]
         return (isinstance(op, ast.GtE) and isinstance(l, ast.Name) and is_self_attr(r, dim)) or (isinstance(op, ast.LtE) and is_self_attr(l, dim) and isinstance(r, ast.Name))
 
+    def inside(t, dim):
+        """`V < self.<dim>`: the complement of `beyond`"""
+        if not (isinstance(t, ast.Compare) and len(t.ops) == 1):
+            return False
+        l, op, r = t.left, t.ops[0], t.comparators[0]
+        return (isinstance(op, ast.Lt) and isinstance(l, ast.Name) and is_self_attr(r, dim)) or (isinstance(op, ast.Gt) and is_self_attr(l, dim) and isinstance(r, ast.Name))
+
+    def outside_arm(n, dim):
+        """statements run when the position lies beyond the dimension, whichever way the `if` is written; None if `n` is not that test"""
+        from ..paths import if_arms
+        t, a_, b_ = if_arms(n)
+        if beyond(t, dim):
+            return a_
+        if inside(t, dim) and b_:
+            return b_
+        return None
+
     for q, dim, cls in specs:
         f = repo.func(q)
         ok = False
         for n in walk_no_nested(f.node):
-            if isinstance(n, ast.If) and beyond(n.test, dim):
-                calls = [c for s_ in n.body for c in ast.walk(s_) if isinstance(c, ast.Call)]
+            if isinstance(n, ast.If) and outside_arm(n, dim) is not None:
+                calls = [c for s_ in outside_arm(n, dim) for c in ast.walk(s_) if isinstance(c, ast.Call)]
                 makes = [c for c in calls if call_name(c) == cls and not c.args and not c.keywords]
                 others = [c for c in calls if call_name(c) not in (cls, "ValueError")]
                 ok = bool(makes) and not others
@@ -227,7 +244,8 @@ def r08d(ctx):
         if not ok:
             ctx.report("R08d", f, f.node, f"{q}: outside-area arm", f"{q} no longer answers a read beyond the populated area with a fresh empty {cls}()")
     g = repo.func("Table.get_value")
-    ok = any(isinstance(n, ast.If) and beyond(n.test, "height") and not any(isinstance(c, ast.Call) for s_ in n.body for c in ast.walk(s_)) for n in walk_no_nested(g.node))
+    ok = any(isinstance(n, ast.If) and outside_arm(n, "height") is not None and not any(isinstance(c, ast.Call) for s_ in outside_arm(n, "height") for c in ast.walk(s_))
+             for n in walk_no_nested(g.node))
     ctx.instance("R08d", f"{g.file}:{g.ident}", "beyond self.height: returns None without any call", ok=ok)
     if not ok:
         ctx.report("R08d", g, g.node, "Table.get_value outside-area arm", "Table.get_value outside the table no longer returns None without side effect")
